@@ -14,7 +14,7 @@ RULE = ("pairs of blackbox-free lint-clean circuits (copy / self / reference-sid
         "unrelated sharing io names) x startpoint and endpoint subsets; distinct = canonical pair + subsets; "
         "non-trivial = at least one compared endpoint depends on a tied startpoint")
 PROBES = ["single_endpoint", "untied_startpoint", "pair:restructured", "pair:mutated", "pair:self", "pair:copy",
-          "pair:unrelated", "pair:cut", "pair:empty", "differs_rarely", "equivalent", "different", "repeated_call_same_objects", "no_common_endpoint", "tie_nothing"]
+          "pair:unrelated", "pair:cut", "pair:empty", "differs_rarely", "equivalent", "different", "repeated_call_same_objects", "no_common_endpoint", "tie_nothing", "nets_named_like_miter_nodes"]
 ASSUMPTIONS = ["<= 5 shared + <= 2 private startpoints per side, <= 12 gates per circuit",
                "node names do not start with c0_/c1_/dif_ and are not 'sat' (default naming)"]
 
@@ -142,6 +142,20 @@ def gen(rng, tier):
             _ = priv
     if rng.random() < 0.02:
         kind, c1 = "empty", {"name": "nothing", "nodes": {}, "bbs": {}}     # a circuit without any node as second operand
+    if rng.random() < 0.12:
+        # internal nets called like the nodes the miter creates (c0_<n> next to n: the names of an unrolled or flattened
+        # design): perfectly legal, only a TIED STARTPOINT of such a name can clash with the miter's own nodes
+        gates0 = [n for n, v in c0["nodes"].items() if v[0] in ref.GATES]
+        mp = {}
+        for g in rng.sample(gates0, min(len(gates0), rng.randint(1, 2))):
+            o = rng.choice(sorted(c0["nodes"]))
+            new = rng.choice((f"c0_{o}", f"c1_{o}", f"dif_{o}", "sat", f"c0_c0_{o}"))
+            if new not in c0["nodes"] and (c1 is None or new not in c1["nodes"]) and new not in mp.values():
+                mp[g] = new
+        if mp:
+            c0 = G.rename(c0, mp)
+            if c1 is not None:
+                c1 = G.rename(c1, {k: v for k, v in mp.items() if k in c1["nodes"]})
     other = c1 if c1 is not None else c0
     sp_shared = sorted(set(ref.startpoints(c0)) & set(ref.startpoints(other)))
     ep_shared = sorted(set(ref.outputs(c0)) & set(ref.outputs(other)))
@@ -177,10 +191,12 @@ def run(case, ctx):
     for net in (n0, n1):
         if not ref.is_lint_clean(net) or ref.is_cyclic(net) or net["bbs"]:
             raise Skip("precondition")
-        if any(_bad_name(n) for n in net["nodes"]):
-            raise Skip("reserved names")
     sp0, sp1 = set(ref.startpoints(n0)), set(ref.startpoints(n1))
     S = set(case["startpoints"]) if case["startpoints"] is not None else (sp0 & sp1)
+    if any(_bad_name(n) for n in S):
+        raise Skip("reserved names")      # a tied startpoint named like a node of the miter itself: refused (assumption)
+    if any(_bad_name(n) for net in (n0, n1) for n in net["nodes"]):
+        ctx.probe("nets_named_like_miter_nodes")
     E = set(case["endpoints"]) if case["endpoints"] else (set(ref.outputs(n0)) & set(ref.outputs(n1)))
     if not S <= (sp0 & sp1) or not E <= (set(n0["nodes"]) & set(n1["nodes"])):
         raise Skip("subset not shared")
